@@ -156,6 +156,8 @@ pub fn load_known_findings(property: &str) -> Vec<KnownFinding> {
 
 #[derive(Default)]
 pub struct Stats {
+    /// cases run by the engine (one per tape / index)
+    pub cases: u64,
     pub evaluations: u64,
     pub nontrivial_counted: u64,
     pub nontrivial_hashes: HashSet<u64>,
@@ -167,6 +169,7 @@ pub struct Stats {
 
 impl Stats {
     fn merge(&mut self, o: Stats) {
+        self.cases += o.cases;
         self.evaluations += o.evaluations;
         self.nontrivial_counted += o.nontrivial_counted;
         self.nontrivial_hashes.extend(o.nontrivial_hashes);
@@ -315,6 +318,13 @@ pub struct RandomSpec {
     pub max_tape: usize,
 }
 
+fn shrink_iters() -> u32 {
+    std::env::var("VERIF_SHRINK_ITERS").ok().and_then(|s| s.parse().ok()).unwrap_or(600)
+}
+fn zero_shrink_budget() -> i64 {
+    std::env::var("VERIF_ZERO_SHRINK").ok().and_then(|s| s.parse().ok()).unwrap_or(2500)
+}
+
 struct ShardOut {
     stats: Stats,
     failure: Option<(Vec<u8>, Option<u64>, Failure)>,
@@ -425,7 +435,7 @@ impl Engine {
                     let cfg = Config {
                         cases: per as u32,
                         failure_persistence: None,
-                        max_shrink_iters: 20000,
+                        max_shrink_iters: shrink_iters(),
                         max_global_rejects: 1,
                         ..Config::default()
                     };
@@ -442,9 +452,18 @@ impl Engine {
                         let stats: &mut Stats = &mut **guard;
                         if counting {
                             stats.evaluations += 1;
+                            stats.cases += 1;
                         }
                         let mut ctx = Ctx { stats, known, counting, seed };
+                        let t_case = Instant::now();
                         let r = catch_unwind(AssertUnwindSafe(|| f(&tape, &mut ctx)));
+                        let el = t_case.elapsed().as_secs_f64();
+                        if el > 1.0 && counting {
+                            ctx.label("slow-case>1s");
+                            if std::env::var("VERIF_SLOW").is_ok() {
+                                eprintln!("[slow case {:.1}s] tape {}", el, hex(&tape));
+                            }
+                        }
                         match r {
                             Ok(Ok(())) => Ok(()),
                             Ok(Err(fl)) => {
@@ -468,6 +487,56 @@ impl Engine {
                     match res {
                         Ok(()) => {}
                         Err(TestError::Fail(_, tape)) => {
+                            // Second shrinking stage that keeps positions stable: zero out aligned
+                            // chunks (large to small) and truncate, keeping the failure signature.
+                            let run_on = |tp: &[u8]| -> Option<Failure> {
+                                let mut scratch = Stats::default();
+                                let mut ctx = Ctx { stats: &mut scratch, known, counting: false, seed };
+                                match catch_unwind(AssertUnwindSafe(|| f(tp, &mut ctx))) {
+                                    Ok(Err(fl)) => Some(fl),
+                                    _ => None,
+                                }
+                            };
+                            let mut tape = tape;
+                            if let Some(orig) = run_on(&tape) {
+                                let sig = orig.signature.clone();
+                                let mut budget: i64 = zero_shrink_budget();
+                                // truncate trailing zeros first
+                                while tape.last() == Some(&0) {
+                                    tape.pop();
+                                }
+                                let mut size = 512usize;
+                                while size >= 1 && budget > 0 {
+                                    let mut pos = 0;
+                                    while pos < tape.len() && budget > 0 {
+                                        let end = (pos + size).min(tape.len());
+                                        if tape[pos..end].iter().any(|b| *b != 0) {
+                                            let saved: Vec<u8> = tape[pos..end].to_vec();
+                                            for b in &mut tape[pos..end] {
+                                                *b = 0;
+                                            }
+                                            budget -= 1;
+                                            let keep = matches!(run_on(&tape), Some(fl) if fl.signature == sig);
+                                            if !keep {
+                                                tape[pos..end].copy_from_slice(&saved);
+                                                // for single bytes also try halving the value
+                                                if size == 1 && saved[0] > 1 {
+                                                    tape[pos] = saved[0] / 2;
+                                                    budget -= 1;
+                                                    if !matches!(run_on(&tape), Some(fl) if fl.signature == sig) {
+                                                        tape[pos] = saved[0];
+                                                    }
+                                                }
+                                            }
+                                        }
+                                        pos += size;
+                                    }
+                                    size /= 2;
+                                }
+                                while tape.last() == Some(&0) {
+                                    tape.pop();
+                                }
+                            }
                             // re-run on the shrunk tape to get the matching failure text
                             let mut scratch = Stats::default();
                             let mut ctx = Ctx { stats: &mut scratch, known, counting: false, seed };
@@ -522,6 +591,7 @@ impl Engine {
     {
         let mut st = self.new_stats();
         st.evaluations = 1;
+        st.cases = 1;
         let known = self.known.clone();
         let r = {
             let mut ctx = Ctx { stats: &mut st, known: &known, counting: true, seed: self.seed };
@@ -585,6 +655,7 @@ impl Engine {
                         let end = (base + chunk).min(total);
                         for i in base..end {
                             st.evaluations += 1;
+                            st.cases += 1;
                             let mut ctx = Ctx { stats: &mut st, known, counting: true, seed };
                             let r = catch_unwind(AssertUnwindSafe(|| f(i, &mut ctx)));
                             match r {
@@ -634,6 +705,7 @@ impl Engine {
 
     fn finish_section(&mut self, section: &str, sec: Stats, t0: Instant, exhaustive: bool) {
         let v = json!({
+            "cases": sec.cases,
             "evaluations": sec.evaluations,
             "distinct_nontrivial": sec.distinct_nontrivial(),
             "labels": sec.labels,
@@ -671,8 +743,12 @@ impl Engine {
     pub fn section_evaluations(&self, section: &str) -> u64 {
         self.section_stats.get(section).and_then(|v| v.get("evaluations")).and_then(|v| v.as_u64()).unwrap_or(0)
     }
+    pub fn section_cases(&self, section: &str) -> u64 {
+        self.section_stats.get(section).and_then(|v| v.get("cases")).and_then(|v| v.as_u64()).unwrap_or(0)
+    }
 
-    /// Fail the run as inconclusive (exit 2) if an essential class of cases is starved.
+    /// Fail the run as inconclusive (exit 2) if an essential class of cases is starved
+    /// (fraction of the section's cases carrying the label).
     pub fn require_fraction(&mut self, section: &str, label: &str, min_fraction: f64) {
         if matches!(self.mode, Mode::Replay { .. }) {
             return;
@@ -680,7 +756,7 @@ impl Engine {
         if self.violations.iter().any(|v| v.section == section) {
             return; // counting stopped early
         }
-        let n = self.section_evaluations(section);
+        let n = self.section_cases(section);
         let c = self.label_count(section, label);
         if n == 0 || (c as f64) < min_fraction * n as f64 {
             self.inconclusive.push(format!(
